@@ -40,6 +40,8 @@ ASSUMPTIONS = [
 def _dump_result(res):
     if isinstance(res, tuple):
         res = res[0]
+    if not hasattr(res, "model_dump"):
+        return {"not-a-result-model": type(res).__name__}  # compared like any other result: a fresh process returns a model
     d = res.model_dump()
     return json.loads(json.dumps(d, default=repr, sort_keys=True))
 
@@ -177,6 +179,15 @@ class Runner:
                 self.pp = PinchProblem.from_json(inp)
                 self.pp_idx = op["i"]
                 res = self.pp.target()
+            elif kind == "pp_reload_target":
+                # the same wrapper object is given another problem: it must answer for that problem, not from its cache
+                inp = self.pool[op["i"]]
+                snap = copy.deepcopy(inp)
+                if self.pp is None:
+                    self.pp = PinchProblem()
+                self.pp.load(TargetInput.model_validate(copy.deepcopy(inp)))
+                self.pp_idx = op["i"]
+                res = self.pp.target()
             elif kind == "pp_target_again":
                 inp = self.pool[self.pp_idx]
                 snap = copy.deepcopy(inp)
@@ -284,7 +295,7 @@ def evaluate(case) -> Outcome:
     steps = forksut.run_in_child(lambda: history_child(pool, ops))
     pp_idx = None
     for k, (op, obs) in enumerate(zip(ops, steps)):
-        if op["op"] == "pp_load_target":
+        if op["op"] in ("pp_load_target", "pp_reload_target"):
             pp_idx = op["i"]
         want = forksut.run_in_child(lambda: oneshot_child(pool, op, pp_idx))
         ctx = f"call {k} ({op['op']}{'' if 'i' not in op else ' #' + str(op['i'])}) after {[o['op'] + ('' if 'i' not in o else '#' + str(o['i'])) for o in ops[:k]]}"
@@ -379,6 +390,11 @@ def machine(col, tier):
             self._add({"op": "pp_load_target", "i": i % self.n})
             self.has_pp = True
 
+        @rule(i=st.integers(0, 3))
+        def pp_reload_target(self, i):
+            if self.has_pp:
+                self._add({"op": "pp_reload_target", "i": i % self.n})
+
         @rule()
         def pp_target_again(self):
             if self.has_pp:
@@ -424,7 +440,6 @@ def eval_fresh(case) -> Outcome:
     want = forksut.run_in_child(lambda: oneshot_child([case], {"op": "service_dict", "i": 0}, None))
     env = dict(os.environ)
     env["PYTHONHASHSEED"] = "0"
-    env.pop("PYTHONPATH", None) if not os.environ.get("OPV_KEEP_PYTHONPATH") else None
     pr = subprocess.run([sys.executable, "-c", FRESH_SRC], input=json.dumps(case), capture_output=True, text=True, env=env, timeout=600)
     line = next((l for l in pr.stdout.splitlines() if l.startswith("RESULT")), None)
     if line is None:
@@ -442,4 +457,4 @@ PARTS = [
     Part("histories", evaluate, {"quick": 240, "thorough": 5000}, machine=machine, steps={"quick": 6, "thorough": 10}, min_nontrivial={"quick": 60, "thorough": 1500}),
     Part("fresh_interpreter", eval_fresh, {"quick": 4, "thorough": 48}, strategy=lambda tier: G.problem(min_streams=2, max_streams=6, thirds=False), min_nontrivial={"quick": 2, "thorough": 20}),
 ]
-MIN_SHARE = {"histories": {"model-object-reused": 0.1, "op:pp_export": 0.03, "op:service_dict": 0.15, "pool-has-user-zone-tree": 0.2}}
+MIN_SHARE = {"histories": {"model-object-reused": 0.1, "op:pp_export": 0.03, "op:pp_reload_target": 0.03, "op:service_dict": 0.15, "pool-has-user-zone-tree": 0.2}}
